@@ -536,6 +536,46 @@ def judge_history(sink, calls, label, outs, bad, snap_bad, factory):
                   {"kind": "history", "storage": label, "calls": small}, snap_bad)
 
 
+KNOWN_ERRORS = {"KeyError", "ValueError", "TypeError", "AttributeError"}
+CHECKER_CLAUSES = {"unique-id", "read-your-writes", "lost-value", "phantom"}
+
+
+def check_request(calls, outs):
+    """the observed history for the verified checker (C13_checker): storage-level calls with the REAL answers.
+    Evaluator-level status reads are left out (they do not change the storage), the setter is the storage call it makes;
+    the history is cut before the first call that overwrites a bookkeeping key (outside the specification)."""
+    cs, os_ = [], []
+    for c, o in zip(calls, outs):
+        if c[0] == "store_search_value" and c[2] in RESERVED:
+            break
+        if o["k"] == "error" and o["v"] not in KNOWN_ERRORS:
+            return None
+        if c[0] in ("job_status", "running_job_status"):
+            continue
+        cs.append(to_storage_call(c))
+        os_.append(o)
+    if not cs:
+        return None
+    return {"op": "check", "calls": cs, "outs": os_}
+
+
+def cross_check(sink, case, label, calls, bad, rep):
+    """Lean's verified verdict on the real answers vs. the Python simple map (a disagreement is a mismatch, not a violation)"""
+    cut = next((i for i, c in enumerate(calls) if c[0] == "store_search_value" and c[2] in RESERVED), len(calls))
+    py_bad = sorted({b[0] for b in bad if b[0] in CHECKER_CLAUSES and b[1] not in ("job_status", "running_job_status")}) if cut == len(calls) else None
+    sink.count("checker:spec-true" if rep["spec"] else "checker:spec-false")
+    if py_bad is None:
+        return   # the history leaves the specification at `cut`; the Python map stopped judging that search there
+    if rep["spec"] and py_bad:
+        # the specification constrains load_out_from_all_jobs / load_metadata_from_all_jobs as SETS of values, the Python map
+        # as multisets: a Python-only complaint about these two is no disagreement
+        py_bad = sorted({b[0] for b in bad if b[0] in CHECKER_CLAUSES
+                         and b[1] not in ("job_status", "running_job_status", "load_out_from_all_jobs", "load_metadata_from_all_jobs")})
+    if bool(rep["spec"]) != (not py_bad):
+        sink.mismatch(case, {"what": f"verified checker (C13_checker) and the Python simple map disagree on the answers of {label}",
+                             "lean_spec": rep["spec"], "lean_first_bad_answer": rep.get("bad"), "python_clauses": py_bad})
+
+
 def compare_outs(sink, case, a_label, a, b_label, b):
     for i, (x, y) in enumerate(zip(a, b)):
         if cout(x) != cout(y):
@@ -559,7 +599,7 @@ def fan_worker(item):
     common.use_repo_sources()
     sink = Sink()
     factory = SharedFactory() if use_shared else None
-    reqs, metas = [], []
+    reqs, metas, checks = [], [], []
     try:
         for prefix in prefixes:
             # prefix on a fresh MemoryStorage
@@ -594,9 +634,15 @@ def fan_worker(item):
                 if [cout(x) for x in outs[:-1]] != [cout(x) for x in pouts]:
                     sink.mismatch(case, {"what": "MemoryStorage is not deterministic", "first": outs[:-1], "second": pouts})
                 judge_history(sink, calls, "MemoryStorage", outs, bad, snap_bad, factory)
+                q = check_request(calls, outs)
+                if q is not None:
+                    checks.append((q, case, "MemoryStorage", calls, bad))
                 if use_shared:
                     sts = factory.new()
                     souts, sbad, ssnap = run_history(sts, calls, "SharedMemoryStorage")
+                    q = check_request(calls, souts)
+                    if q is not None:
+                        checks.append((q, case, "SharedMemoryStorage", calls, sbad))
                     sink.count("shared-histories")
                     d = compare_outs(sink, case, "memory", outs, "shared", souts)
                     if d is not None:
@@ -607,6 +653,9 @@ def fan_worker(item):
             metas.append((pcalls, pouts, alts, [alt_outs[k] for k in KINDS]))
         with common.LeanDriver("C13") as drv:
             reps = drv.ask_all(reqs)
+            creps = drv.ask_all([c[0] for c in checks])
+        for (_, case, label, calls, bad), rep in zip(checks, creps):
+            cross_check(sink, case, label, calls, bad, rep)
         for (pcalls, pouts, alts, aouts), rep in zip(metas, reps):
             d = compare_outs(sink, None, "impl", pouts, "model", rep["outs"])
             if d is not None:
@@ -697,7 +746,7 @@ def long_worker(item):
     rng = random.Random(seed)
     sink = Sink()
     factory = SharedFactory()
-    reqs, metas = [], []
+    reqs, metas, checks = [], [], []
     try:
         for t in range(count):
             malformed = rng.random() < 0.35
@@ -713,8 +762,14 @@ def long_worker(item):
                 sink.count("op:" + c[0])
                 sink.count("out:" + (o["v"] if o["k"] == "error" else o["k"]))
             judge_history(sink, calls, "MemoryStorage", outs, bad, snap_bad, factory)
+            q = check_request(calls, outs)
+            if q is not None:
+                checks.append((q, case, "MemoryStorage", calls, bad))
             sts = factory.public() if (use_public_shared and t % 25 == 0) else factory.new()
             souts, sbad, ssnap = run_history(sts, calls, "SharedMemoryStorage")
+            q = check_request(calls, souts)
+            if q is not None:
+                checks.append((q, case, "SharedMemoryStorage", calls, sbad))
             sink.count("shared-histories")
             d = compare_outs(sink, case, "memory", outs, "shared", souts)
             if d is not None:
@@ -726,6 +781,9 @@ def long_worker(item):
             metas.append((calls, outs))
         with common.LeanDriver("C13") as drv:
             reps = drv.ask_all(reqs)
+            creps = drv.ask_all([c[0] for c in checks])
+        for (_, case, label, calls, bad), rep in zip(checks, creps):
+            cross_check(sink, case, label, calls, bad, rep)
         for (calls, outs), rep in zip(metas, reps):
             mo = rep["outs"]
             for i, (x, y) in enumerate(zip(outs, mo)):
@@ -1585,6 +1643,12 @@ def replay(ck, case, drv=None, quiet=False):
                             print("  ORACLE FAILS:", b[0], b[1], json.dumps(b[2])[:600])
                         if snap_bad:
                             print("  ORACLE FAILS: snapshot", json.dumps(snap_bad)[:600])
+                    q = check_request(calls, outs)
+                    if q is not None:
+                        crep = drv.ask(q)
+                        if not quiet:
+                            print(f"  verified checker on the answers of {label}: spec={crep['spec']} first bad answer={crep.get('bad')}")
+                        cross_check(sink, case, label, calls, bad, crep)
                     for clause, method, detail in bad[:3]:
                         sink.fail(f"C13|{clause}|{method}|{label}", f"{label}.{method}: {clause}", case, detail)
                     if snap_bad is not None:
